@@ -401,7 +401,10 @@ def in_process(wb):
             sys.modules.pop(wb["models"]["module"], None)
             mod = wb["models"]["module"]
         try:
-            return converters.create_flows([folder], None, "csv", data_models=mod, tags=[])
+            from .flows import LogCapture
+
+            with LogCapture():
+                return converters.create_flows([folder], None, "csv", data_models=mod, tags=[])
         finally:
             if mod:
                 sys.path.remove(os.path.join(root, "cwd"))
